@@ -291,6 +291,17 @@ fn block_strategy(version: usize, level: Level, len: usize) -> BoxedStrategy<Cas
             }
             (d, "multiple_of_g_prefix")
         }),
+        // a prefix followed by (the beginning of) its own remainder: the running remainder cancels against the incoming data
+        2 => (vec(any::<u8>(), len), any::<u16>(), 0usize..3, prop_oneof![Just(1usize), Just(2), Just(3), Just(4), Just(8), Just(255)]).prop_map(move |(mut d, pr, align, take)| {
+            let unit = [4usize, 2, 1][align];
+            let p = (1 + crate::gens::pick(pr, len.saturating_sub(1).max(1))) / unit * unit;
+            if p >= 1 && p < len {
+                let rem = gf::rs_remainder(&d[..p], ec);
+                let k = take.min(rem.len()).min(len - p);
+                d[p..p + k].copy_from_slice(&rem[..k]);
+            }
+            (d, "prefix_plus_own_remainder")
+        }),
         1 => (1u8..=255, any::<u16>()).prop_map(move |(c, off)| {
             let mut d = vec![0u8; len];
             if len >= g2.len() {
